@@ -34,6 +34,8 @@ func execDescriptor(line string) *result {
 		return runGroup(line)
 	case len(f) > 0 && f[0] == "hammer":
 		return runHammer(line)
+	case len(f) > 0 && f[0] == "lockrace":
+		return runLockRace(line)
 	}
 
 	return nil
@@ -73,7 +75,7 @@ func main() {
 	if lines := r.ReplayLines(); lines != nil {
 		for _, l := range lines {
 			f := strings.Fields(l)
-			if len(f) > 0 && (f[0] == "sched" || f[0] == "run" || f[0] == "group" || f[0] == "hammer") {
+			if len(f) > 0 && (f[0] == "sched" || f[0] == "run" || f[0] == "group" || f[0] == "hammer" || f[0] == "lockrace") {
 				jobs = append(jobs, job{0, l})
 			}
 		}
@@ -108,6 +110,7 @@ func main() {
 				job{0, runCfg{"gpending-false", w, false, 1, 6, 0, 1, 7}.String()})
 		}
 		jobs = append(jobs, job{0, fmt.Sprintf("hammer %d 1", 1500*r.Scale)}, job{0, fmt.Sprintf("hammer %d 2", 1500*r.Scale)})
+		jobs = append(jobs, job{0, fmt.Sprintf("lockrace %d 1", 150*r.Scale)})
 		for _, d := range groupCorpus() {
 			jobs = append(jobs, job{0, d})
 		}
